@@ -66,3 +66,25 @@ Fixpoint relink_group (s : dstate) (kept : list N) (names : list N) : dstate :=
 
 (* all groups, one after the other *)
 Definition relink (s : dstate) (groups : list (list N)) : dstate := fold_left (fun s g => relink_group s [] g) groups s.
+
+(* ---------- one re-link of that pass as the system calls that make it (C09: killed between two calls) ----------
+   The code: hard link the kept name's inode under the working name, then rename the working name over q (anchor HL_RELINK_SHAPE).
+   The variant of seed C09-4: unlink q, then hard link the kept inode under q. *)
+Inductive rstep : Type := RLinkTmp (i : N) | RRename (q : N) | RUnlink (q : N) | RLink (q i : N).
+Record rstate : Type := mk_rstate { r_names : N -> option N; r_tmp : option N }.
+
+Definition rstep_apply (s : rstate) (st : rstep) : rstate :=
+  match st with
+  | RLinkTmp i => mk_rstate (r_names s) (Some i)
+  | RRename q => match r_tmp s with
+                 | Some i => mk_rstate (fun r => if N.eqb r q then Some i else r_names s r) None
+                 | None => s
+                 end
+  | RUnlink q => mk_rstate (fun r => if N.eqb r q then None else r_names s r) (r_tmp s)
+  | RLink q i => mk_rstate (fun r => if N.eqb r q then Some i else r_names s r) (r_tmp s)
+  end.
+
+Definition relink_prog (q i : N) : list rstep := [RLinkTmp i; RRename q].
+Definition relink_prog_unlink_first (q i : N) : list rstep := [RUnlink q; RLink q i].
+(* the state after the first k calls: a kill just before call k+1 *)
+Definition rprefix (k : nat) (prog : list rstep) (s : rstate) : rstate := fold_left rstep_apply (firstn k prog) s.
